@@ -16,6 +16,9 @@ struct Src { ns: usize, text: String }
 #[derive(Clone, Debug)]
 struct Case {
     pre: Vec<Src>, bad: Src, post: Vec<Src>,
+    /// sources submitted last that must be REJECTED with and without the bad source (they use
+    /// identifiers a failing rule may have leaked: loop variables, the rule's own name)
+    probes: Vec<Src>,
     kind: String,
     slow_err: bool, lint: bool, ignore_mod: bool,
     /// number of entries the bad source must add to errors(): [min, max]
@@ -95,9 +98,15 @@ fn gen_bad(rng: &mut Rng, ns: usize, id: usize, lint: bool, slow_err: bool, igno
     let strings = |extra: &str| -> String {
         if pre.is_empty() && extra.is_empty() { String::new() } else { format!("strings: {}{} ", pre, extra) }
     };
-    let (h, meta) = header(lint, &format!("bad{}", id));
+    let (h, meta0) = header(lint, &format!("bad{}", id));
+    // half of the failing sources carry warning-suppression comments whose span covers a long line:
+    // suppressions are per source and must not outlive the failed attempt
+    let suppress = rng.chance(1, 2);
+    let meta_s = if suppress { format!("meta: {}pad = \"{}\" ", if lint { "author = \"me\" " } else { "" }, "x".repeat(200 + rng.below(200) as usize)) } else { meta0.to_string() };
+    let meta = meta_s.as_str();
     let one = (1usize, 1usize);
     let mut kinds: Vec<u32> = (0..9).collect();
+    kinds.extend([14, 14, 15]);
     if !good_names.is_empty() { kinds.push(9); }
     if slow_err { kinds.extend([10, 10, 11, 11]); }
     if lint { kinds.extend([12, 12, 12]); }
@@ -122,15 +131,25 @@ fn gen_bad(rng: &mut Rng, ns: usize, id: usize, lint: bool, slow_err: bool, igno
                        strings("$z = { 00 00 00 00 00 00 }"), cond_pre, id), "slow-literal+loop-error", one, 1, true),
         // a rule violating three linters at once: all three errors must be recorded
         12 => (format!("rule lowercase_bad{} : evil {{ {}condition: {}true }}", id, strings(""), cond_pre), "three-linter-errors", (3, 3), 1, true),
+        // the failure is found two or three scopes deep (for / for / with): every scope opened by the rule must go
+        14 => (format!("{} {{ {}{}condition: {}for any i in (1..3) : ( for all j in (1..2) : ( with k = i + j : ( k == undefined_deep_{} ) ) ) }}", h, meta, strings(""), cond_pre, id),
+               "unknown-identifier-in-nested-scopes", one, 1, true),
+        15 => (format!("{} {{ {}{}condition: {}with k = 1 : ( for any i in (1..3) : ( for any j in (i..4) : ( j + k == \"a\" ) ) ) }}", h, meta, strings(""), cond_pre),
+               "type-error-in-nested-scopes", one, 1, true),
         // a rule using an ignored module is skipped, listed in ignored_rules(), not an error
         _ => (format!("{} {{ {}{}condition: {}ghost_module.some_field == {} }}", h, meta, strings(""), cond_pre, id), "uses-ignored-module", (0, 0), 1, false),
     };
-    (Src { ns, text }, kindname.to_string(), exp_errors, exp_ignored, exp_err)
+    let text = if suppress {
+        let codes = "text_as_hex, slow_pattern, invariant_expr, non_bool_expr, consecutive_jumps, redundant_case_modifier, unsatisfiable_expr";
+        if rng.chance(1, 2) { format!("{} // suppress: {}", text, codes) } else { format!("// suppress: {}\n{}", codes, text) }
+    } else { text };
+    let kindname = if suppress { format!("{}+suppress", kindname) } else { kindname.to_string() };
+    (Src { ns, text }, kindname, exp_errors, exp_ignored, exp_err)
 }
 
-struct Compiled { rules: Option<yara_x::Rules>, add_results: Vec<bool>, n_errors: usize, n_ignored: usize, build_panic: bool }
+struct Compiled { rules: Option<yara_x::Rules>, add_results: Vec<bool>, n_errors: usize, n_ignored: usize, build_panic: bool, warnings: Vec<String> }
 
-fn compile(srcs: &[Src], case: &Case) -> Compiled {
+fn compile(srcs: &[Src], case: &Case, bad_idx: Option<usize>) -> Compiled {
     let mut c = yara_x::Compiler::new();
     c.error_on_slow_pattern(case.slow_err);
     if case.ignore_mod { c.ignore_module("ghost_module"); }
@@ -141,16 +160,20 @@ fn compile(srcs: &[Src], case: &Case) -> Compiled {
     }
     let mut add_results = vec![];
     let mut cur = usize::MAX;
-    for s in srcs {
+    let mut k = 0usize;
+    for (i, s) in srcs.iter().enumerate() {
         if s.ns != cur { c.new_namespace(&format!("ns{}", s.ns)); cur = s.ns; }
-        let r = catch(AssertUnwindSafe(|| c.add_source(s.text.as_str()).is_ok()));
+        // origins make every warning attributable to the source it is about
+        let origin = if Some(i) == bad_idx { "BADSRC.yar".to_string() } else { k += 1; format!("src{}.yar", k) };
+        let r = catch(AssertUnwindSafe(|| c.add_source(yara_x::SourceCode::from(s.text.as_str()).with_origin(origin.as_str())).is_ok()));
         add_results.push(r.unwrap_or(false));
     }
+    let warnings: Vec<String> = c.warnings().iter().map(|w| w.to_string()).filter(|w| !w.contains("BADSRC.yar")).collect();
     let n_errors = c.errors().len();
     let n_ignored = c.ignored_rules().count();
     match catch(AssertUnwindSafe(move || c.build())) {
-        Ok(r) => Compiled { rules: Some(r), add_results, n_errors, n_ignored, build_panic: false },
-        Err(_) => Compiled { rules: None, add_results, n_errors, n_ignored, build_panic: true },
+        Ok(r) => Compiled { rules: Some(r), add_results, n_errors, n_ignored, build_panic: false, warnings },
+        Err(_) => Compiled { rules: None, add_results, n_errors, n_ignored, build_panic: true, warnings },
     }
 }
 
@@ -214,7 +237,7 @@ fn main() {
 #[derive(Default, Debug, Clone)]
 struct Outcome {
     bad_returned_err: bool, good_rejected: bool, errors_delta: i64, ignored_delta: i64, others_same: bool,
-    build_ok: bool, scans_equal: bool, no_panic: bool, comps: Vec<(String, bool)>,
+    build_ok: bool, scans_equal: bool, no_panic: bool, comps: Vec<(String, bool)>, warnings_same: bool, n_warnings: usize,
 }
 
 fn srcs_json(v: &[Src]) -> serde_json::Value { serde_json::json!(v.iter().map(|s| serde_json::json!([s.ns, s.text])).collect::<Vec<_>>()) }
@@ -222,20 +245,20 @@ fn srcs_from(v: &serde_json::Value) -> Vec<Src> {
     v.as_array().unwrap().iter().map(|x| Src { ns: x[0].as_u64().unwrap() as usize, text: x[1].as_str().unwrap().to_string() }).collect()
 }
 fn case_json(c: &Case, seed: u64) -> serde_json::Value {
-    serde_json::json!({"pre": srcs_json(&c.pre), "bad": srcs_json(&[c.bad.clone()]), "post": srcs_json(&c.post), "kind": c.kind,
+    serde_json::json!({"probes": srcs_json(&c.probes), "pre": srcs_json(&c.pre), "bad": srcs_json(&[c.bad.clone()]), "post": srcs_json(&c.post), "kind": c.kind,
         "slow": c.slow_err, "lint": c.lint, "ignore_mod": c.ignore_mod, "exp_errors": [c.exp_errors.0, c.exp_errors.1],
         "exp_ignored": c.exp_ignored, "exp_err": c.exp_err, "seed": seed})
 }
 fn case_from(v: &serde_json::Value) -> Case {
-    Case { pre: srcs_from(&v["pre"]), bad: srcs_from(&v["bad"])[0].clone(), post: srcs_from(&v["post"]), kind: v["kind"].as_str().unwrap().to_string(),
+    Case { probes: srcs_from(&v["probes"]), pre: srcs_from(&v["pre"]), bad: srcs_from(&v["bad"])[0].clone(), post: srcs_from(&v["post"]), kind: v["kind"].as_str().unwrap().to_string(),
            slow_err: v["slow"].as_bool().unwrap(), lint: v["lint"].as_bool().unwrap(), ignore_mod: v["ignore_mod"].as_bool().unwrap(),
            exp_errors: (v["exp_errors"][0].as_u64().unwrap() as usize, v["exp_errors"][1].as_u64().unwrap() as usize),
            exp_ignored: v["exp_ignored"].as_u64().unwrap() as usize, exp_err: v["exp_err"].as_bool().unwrap() }
 }
 
 fn outcome_line(tag: &str, o: &Outcome) -> String {
-    format!("{} {} {} {} {} {} {} {} {} {}", tag, o.bad_returned_err, o.good_rejected, o.errors_delta, o.ignored_delta, o.others_same, o.build_ok,
-        o.scans_equal, o.no_panic, o.comps.iter().map(|(k, e)| format!("{}={}", k, e)).collect::<Vec<_>>().join(","))
+    format!("{} {} {} {} {} {} {} {} {} {} {} {}", tag, o.bad_returned_err, o.good_rejected, o.errors_delta, o.ignored_delta, o.others_same, o.build_ok,
+        o.scans_equal, o.no_panic, o.warnings_same, o.n_warnings, o.comps.iter().map(|(k, e)| format!("{}={}", k, e)).collect::<Vec<_>>().join(","))
 }
 
 fn child() -> i32 {
@@ -251,14 +274,16 @@ fn child() -> i32 {
 }
 
 fn evaluate(case: &Case, rng: &mut Rng) -> Outcome {
-    let mut with: Vec<Src> = case.pre.clone(); with.push(case.bad.clone()); with.extend(case.post.iter().cloned());
-    let mut without: Vec<Src> = case.pre.clone(); without.extend(case.post.iter().cloned());
-    let cw = compile(&with, case);
-    let co = compile(&without, case);
+    let mut with: Vec<Src> = case.pre.clone(); with.push(case.bad.clone()); with.extend(case.post.iter().cloned()); with.extend(case.probes.iter().cloned());
+    let mut without: Vec<Src> = case.pre.clone(); without.extend(case.post.iter().cloned()); without.extend(case.probes.iter().cloned());
     let bad_idx = case.pre.len();
+    let cw = compile(&with, case, Some(bad_idx));
+    let co = compile(&without, case, None);
     let mut o = Outcome::default();
     o.bad_returned_err = !cw.add_results[bad_idx];
-    o.good_rejected = !co.add_results.iter().all(|x| *x);
+    o.good_rejected = !co.add_results[..case.pre.len() + case.post.len()].iter().all(|x| *x);
+    o.warnings_same = cw.warnings == co.warnings;
+    o.n_warnings = co.warnings.len();
     o.errors_delta = cw.n_errors as i64 - co.n_errors as i64;
     o.ignored_delta = cw.n_ignored as i64 - co.n_ignored as i64;
     o.others_same = true;
@@ -292,7 +317,8 @@ fn parse_outcome(l: &str, died_scanning: bool) -> Outcome {
     let b = |s: &str| s == "true";
     Outcome { bad_returned_err: b(f[1]), good_rejected: b(f[2]), errors_delta: f[3].parse().unwrap(), ignored_delta: f[4].parse().unwrap(),
               others_same: b(f[5]), build_ok: b(f[6]), scans_equal: b(f[7]) && !died_scanning, no_panic: b(f[8]) && !died_scanning,
-              comps: f.get(9).unwrap_or(&"").split(',').filter_map(|kv| kv.split_once('=')).map(|(k, v)| (k.to_string(), v == "true")).collect() }
+              warnings_same: b(f[9]), n_warnings: f[10].parse().unwrap(),
+              comps: f.get(11).unwrap_or(&"").split(',').filter_map(|kv| kv.split_once('=')).map(|(k, v)| (k.to_string(), v == "true")).collect() }
 }
 
 /// Parent side: run one case in a child process.
@@ -308,13 +334,13 @@ fn run_in_child(case: &Case, seed: u64) -> Option<Outcome> {
     if let Some(l) = text.lines().find(|l| l.starts_with("PRE ")) { return Some(parse_outcome(l, true)); }
     // died while compiling or building
     let mut o = Outcome::default();
-    o.bad_returned_err = case.exp_err; o.build_ok = false;
+    o.bad_returned_err = case.exp_err; o.build_ok = false; o.warnings_same = true;
     Some(o)
 }
 
 fn corpus() -> Vec<Case> {
     let s = |ns: usize, t: &str| Src { ns, text: t.to_string() };
-    let base = |pre: Vec<Src>, bad: Src, post: Vec<Src>, kind: &str| Case { pre, bad, post, kind: kind.to_string(), slow_err: false, lint: false,
+    let base = |pre: Vec<Src>, bad: Src, post: Vec<Src>, kind: &str| Case { pre, bad, post, probes: vec![], kind: kind.to_string(), slow_err: false, lint: false,
         ignore_mod: false, exp_errors: (1, 1), exp_ignored: 1, exp_err: true };
     let mut v = vec![
         // (fixed) anchored literal registered, then a regexp of the same rule fails
@@ -362,7 +388,14 @@ fn gen_case(rng: &mut Rng) -> Case {
         let name = if fresh_in_ns { name } else { format!("k{}_{}", ns, i) };
         post.push((gen_good(rng, ns, &name, lint, &mut shared), name));
     }
-    Case { pre, bad, post: post.into_iter().map(|p| p.0).collect(), kind, slow_err, lint, ignore_mod, exp_errors, exp_ignored, exp_err }
+    // probes: sources that must be rejected whether or not the bad source was seen
+    let mut probes = vec![];
+    if rng.chance(1, 2) {
+        let (h, meta) = header(lint, "probe0");
+        let body = *rng.pick(&["i == 1", "j == 1 or k == 2", "k + i > 0", "for any x in (1..2) : ( x == j )"]);
+        probes.push(Src { ns, text: format!("{} {{ {}condition: {} }}", h, meta, body) });
+    }
+    Case { pre, bad, post: post.into_iter().map(|p| p.0).collect(), probes, kind, slow_err, lint, ignore_mod, exp_errors, exp_ignored, exp_err }
 }
 
 pub fn run(args: &[String]) -> i32 {
@@ -396,16 +429,19 @@ pub fn run(args: &[String]) -> i32 {
         if o.comps.iter().any(|c| !c.1) { stats.inc("digest_differs"); }
         if !o.scans_equal { stats.inc("scans_differ"); }
         if !o.no_panic { stats.inc("scan_crashes"); }
+        if !o.warnings_same { stats.inc("warnings_differ"); }
+        if o.n_warnings > 0 { stats.inc("good_sources_emit_warnings"); }
+        if !case.probes.is_empty() { stats.inc("with_probe_source"); }
         if !recorded { stats.inc("errors_not_recorded"); }
         if !ignored_ok { stats.inc("ignored_rules_mismatch"); }
-        let coq_case = format!("mkCase {} {} {} {} {} {}",
+        let coq_case = format!("mkCase {} {} {} {} {} {} {}",
             coq_list(&o.comps, |(k, eq)| format!("({}, {})", coq_string(k), coq_bool(*eq))),
-            coq_bool(recorded && ignored_ok && outcome_ok), coq_bool(o.others_same), coq_bool(o.build_ok), coq_bool(o.scans_equal), coq_bool(o.no_panic));
+            coq_bool(recorded && ignored_ok && outcome_ok), coq_bool(o.others_same), coq_bool(o.build_ok), coq_bool(o.scans_equal), coq_bool(o.no_panic), coq_bool(o.warnings_same));
         let fmt_srcs = |v: &[Src]| v.iter().map(|s| format!("// ns{}\n{}", s.ns, s.text)).collect::<Vec<_>>().join("\n");
-        let replay = format!("{{\"pre\":{},\"bad\":{},\"bad_kind\":{},\"post\":{},\"error_on_slow_pattern\":{},\"linters\":{},\"ignore_module\":{},\"digest_equal\":{},\"errors_delta\":{},\"expected_errors\":[{},{}],\"ignored_delta\":{},\"expected_ignored\":{},\"bad_returned_err\":{},\"recorded\":{},\"others_same\":{},\"build_ok\":{},\"scans_equal\":{},\"no_panic\":{}}}",
+        let replay = format!("{{\"pre\":{},\"bad\":{},\"bad_kind\":{},\"post\":{},\"error_on_slow_pattern\":{},\"linters\":{},\"ignore_module\":{},\"digest_equal\":{},\"errors_delta\":{},\"expected_errors\":[{},{}],\"ignored_delta\":{},\"expected_ignored\":{},\"bad_returned_err\":{},\"recorded\":{},\"others_same\":{},\"build_ok\":{},\"scans_equal\":{},\"no_panic\":{},\"probes\":{},\"warnings_same\":{},\"warnings_of_good_sources\":{}}}",
             json_str(&fmt_srcs(&case.pre)), json_str(&fmt_srcs(&[case.bad.clone()])), json_str(&case.kind), json_str(&fmt_srcs(&case.post)),
             case.slow_err, case.lint, case.ignore_mod, json_str(&format!("{:?}", o.comps)), o.errors_delta, case.exp_errors.0, case.exp_errors.1,
-            o.ignored_delta, case.exp_ignored, o.bad_returned_err, recorded && ignored_ok && outcome_ok, o.others_same, o.build_ok, o.scans_equal, o.no_panic);
+            o.ignored_delta, case.exp_ignored, o.bad_returned_err, recorded && ignored_ok && outcome_ok, o.others_same, o.build_ok, o.scans_equal, o.no_panic, json_str(&fmt_srcs(&case.probes)), o.warnings_same, o.n_warnings);
         if samples.len() < 3 { samples.push(replay.clone()); }
         shards.push(coq_case, replay);
     }
